@@ -141,11 +141,14 @@ class Gen:
         for _ in range(nstmt):
             if self.pausable and self.rng.random() < 0.08:
                 self.paused = not self.paused
-                self.emit("pause" if self.paused else "cont")
+                if self.paused:
+                    self.emit("pause"); self.emit("tape")
+                else:
+                    self.emit("tape"); self.emit("cont")
             self.statement()
         if self.paused:
             self.paused = False
-            self.emit("cont")
+            self.emit("tape"); self.emit("cont")
 
 
 def pick_lists(rng, gen, n, m, distinct=False):
